@@ -399,6 +399,49 @@ def rule_stream_switch(ctx):
             ctx.violation("%s|definition|1" % nm, site(f, 0), "%s is no longer `self != State::Fresh`: %s" % (nm, tab))
 
 
+def _borrow_used_mutably(fn, l, depth=0, seen=None):
+    """Is the `&mut` held in local `l` ever used to mutate (written through, reborrowed mutably and that used, handed
+    to a call or stored in a value)?  A `&mut` that is only read through (`let Self { items, .. } = self; items.get(i)`)
+    is not a mutation of the field.  Conservative: every use that is not a plain read counts."""
+    from cfg import op_place
+    seen = seen if seen is not None else set()
+    if l in seen or depth > 6:
+        return l not in seen
+    seen.add(l)
+    for bi in sorted(fn.live):
+        blk = fn.blocks[bi]
+        for s in blk["stmts"]:
+            if s.get("k") != "assign":
+                continue
+            lhs, rv = s["lhs"], s["rv"]
+            if lhs["l"] == l and lhs["p"]:
+                return True                                     # *p = .. / (*p).f = ..
+            pl = rv.get("ref") or rv.get("rawptr")
+            if pl is not None and pl["l"] == l:
+                if rv.get("mut") and pl["p"]:
+                    if lhs["p"] or _borrow_used_mutably(fn, lhs["l"], depth + 1, seen):
+                        return True                             # &mut *p, used mutably
+                continue                                        # &*p, &p, &(*p).f: reads
+            if "use" in rv:
+                up = op_place(rv["use"])
+                if up and up["l"] == l:
+                    if not up["p"]:
+                        if lhs["p"] or _borrow_used_mutably(fn, lhs["l"], depth + 1, seen):
+                            return True                         # moved / copied on
+                    continue                                    # a value read through the pointer
+            for o in (rv.get("ops") or []) + [rv.get(k_) for k_ in ("a", "b") if isinstance(rv.get(k_), dict)]:
+                up = op_place(o) if isinstance(o, dict) else None
+                if up and up["l"] == l and not up["p"]:
+                    return True                                 # stored in an aggregate / closure by value
+        t = blk["term"]
+        if t["k"] == "call":
+            for a in t["args"]:
+                up = op_place(a)
+                if up and up["l"] == l and not up["p"]:
+                    return True                                 # handed to a call
+    return False
+
+
 def worker_fields_mutated(facts):
     """Worker fields that the scan/rescore call tree mutates (assignment or &mut borrow)."""
     tree = [b for b in facts.bodies_of("nucleo") if b["path"].startswith("worker::Worker::<T>::") and not b["path"].startswith("worker::Worker::<T>::new")
@@ -409,7 +452,8 @@ def worker_fields_mutated(facts):
     for b in tree:
         fn = fn_of(b)
         for nm in names:
-            hits = field_assigns(fn, nm, "worker::Worker<") + field_borrows(fn, nm, "worker::Worker<")
+            hits = field_assigns(fn, nm, "worker::Worker<") + \
+                [h for h in field_borrows(fn, nm, "worker::Worker<") if h[2]["lhs"]["p"] or _borrow_used_mutably(fn, h[2]["lhs"]["l"])]
             if hits:
                 out.setdefault(nm, []).append(fn.path)
         # closures capture `self.matches` etc. by unique borrow: look at capture lists
